@@ -3,7 +3,7 @@
    [swF] = the repaired behaviour (both switches on); [conv] = the altitude -> flight-level conversion, a
    parameter here; the conversion regenerated from the source is discharged in link/C06_Link_F4*.v. *)
 From Coq Require Import List Reals Bool Arith.
-From AV Require Import lib.Num model.C06_Model proofs.C06_Lists proofs.C06_Proofs proofs.C06_Continuity proofs.C06_Witness.
+From AV Require Import lib.Num model.C06_Model proofs.C06_Lists proofs.C06_Proofs proofs.C06_Continuity proofs.C06_PTF proofs.C06_Witness.
 Import ListNotations.
 Local Open Scope R_scope.
 
@@ -205,6 +205,68 @@ Theorem C06_ptf_descent_rows_reproduced :
       = @Ok RNum (pd_tas d * KN) ((- pd_rocd d) * FPM) (pd_ff d / M2S).
 Proof. exact ptf_descent_rows_reproduced. Qed.
 Print Assumptions C06_ptf_descent_rows_reproduced.
+
+(* (7') the hypotheses of (7) are discharged for every well-formed PTF content ([wf_ptf]: low < nominal < high mass, no
+        level twice in a block, at least one row, every rate beyond the ROCD tolerance after conversion): the generated
+        table is accepted at load, every non-empty phase validates, and every row is returned *)
+Theorem C06_ptf_table_valid :
+  forall (KN FPM M2S : R) (P : ptf RNum), @wf_ptf RNum FPM P = true ->
+    let rows := @build_table RNum KN FPM M2S P in
+    @load RNum swF rows = None /\
+    (p_climb P <> [] -> @validate RNum swF (@subset RNum Climb rows) = None) /\
+    (p_cruise P <> [] -> @validate RNum swF (@subset RNum Cruise rows) = None) /\
+    (p_descent P <> [] -> @validate RNum swF (@subset RNum Descent rows) = None).
+Proof.
+  exact (fun KN FPM M2S P H =>
+           conj (ptf_table_loads KN FPM M2S P H)
+                (conj (ptf_phase_valid KN FPM M2S P H Climb)
+                      (conj (ptf_phase_valid KN FPM M2S P H Cruise) (ptf_phase_valid KN FPM M2S P H Descent)))).
+Qed.
+Print Assumptions C06_ptf_table_valid.
+
+Theorem C06_ptf_wf_rows_reproduced :
+  forall (KN FPM M2S : R) (conv : R -> R) (P : ptf RNum), @wf_ptf RNum FPM P = true ->
+    let rows := @build_table RNum KN FPM M2S P in
+    (forall c alt, In c (p_climb P) -> conv alt = pc_fl c ->
+       @evaluate RNum swF conv rows Climb alt (@MVal RNum (p_low P))
+         = @Ok RNum (pc_tas c * KN) (pc_lo c * FPM) (pc_ff c / M2S) /\
+       @evaluate RNum swF conv rows Climb alt (@MVal RNum (p_nom P))
+         = @Ok RNum (pc_tas c * KN) (pc_nom c * FPM) (pc_ff c / M2S) /\
+       @evaluate RNum swF conv rows Climb alt (@MVal RNum (p_high P))
+         = @Ok RNum (pc_tas c * KN) (pc_hi c * FPM) (pc_ff c / M2S)) /\
+    (forall c alt, In c (p_cruise P) -> conv alt = pr_fl c ->
+       @evaluate RNum swF conv rows Cruise alt (@MVal RNum (p_low P)) = @Ok RNum (pr_tas c * KN) 0 (pr_lo c / M2S) /\
+       @evaluate RNum swF conv rows Cruise alt (@MVal RNum (p_nom P)) = @Ok RNum (pr_tas c * KN) 0 (pr_nom c / M2S) /\
+       @evaluate RNum swF conv rows Cruise alt (@MVal RNum (p_high P)) = @Ok RNum (pr_tas c * KN) 0 (pr_hi c / M2S)) /\
+    (forall d alt m, In d (p_descent P) -> conv alt = pd_fl d ->
+       @evaluate RNum swF conv rows Descent alt (@MVal RNum m)
+         = @Ok RNum (pd_tas d * KN) ((- pd_rocd d) * FPM) (pd_ff d / M2S)).
+Proof.
+  exact (fun KN FPM M2S conv P H =>
+           conj (ptf_wf_climb_rows_reproduced KN FPM M2S conv P H)
+                (conj (ptf_wf_cruise_rows_reproduced KN FPM M2S conv P H)
+                      (ptf_wf_descent_rows_reproduced KN FPM M2S conv P H))).
+Qed.
+Print Assumptions C06_ptf_wf_rows_reproduced.
+
+(* FC06d (known): outside [wf_ptf] lie the files BADA really writes -- a rate of climb of 0 fpm for a mass that cannot
+   climb.  Whenever such an entry (within the ROCD tolerance) sits at a level that also has a cruise row, the generated
+   table is refused at load, so no row of that file is reproduced. *)
+Theorem C06_ptf_zero_climb_rate_refused :
+  forall (KN FPM M2S : R) (P : ptf RNum) c r,
+    In c (p_climb P) -> In r (p_cruise P) -> pr_fl r = pc_fl c ->
+    - @tol RNum <= pc_hi c * FPM <= @tol RNum ->
+    exists e, @load RNum swF (@build_table RNum KN FPM M2S P) = Some e.
+Proof. exact ptf_zero_climb_rate_refused. Qed.
+Print Assumptions C06_ptf_zero_climb_rate_refused.
+
+Theorem C06_ptf_rows_reproduced_for_bada_files_refuted :
+  exists P : ptf RNum, @bada_ptf RNum P = true /\ exists e, @load RNum swF (@build_table RNum 1 1 1 P) = Some e.
+Proof. exact ptf_zero_climb_rate_refuted. Qed.
+Print Assumptions C06_ptf_rows_reproduced_for_bada_files_refuted.
+
+Example C06_wf_ptf_nonvacuous : @wf_ptf RNum 1 w_ptf1 = true.
+Proof. exact w_ptf1_wf. Qed.
 
 (* (8) load-time validation (repaired coverage test) accepts a table iff it has the required number of masses, every
        phase sub-table is a complete flight-level x mass grid, and the FL-only columns are functions of the level *)
